@@ -711,8 +711,17 @@ def rule_qmin(ctx, kernels=None, rule="qmin", strict_seed=True):
         depth_p = F.param_for(k, "depth")
         loops = [n for n in walk_no_nested(k.node) if isinstance(n, (ast.For, ast.While))]
         rets = [e for e in w.events if e.kind == "ret" and not e.implicit]
-        # (1) a single loop over range(depth)
+        # (1) a single loop over range(depth) -- the loop that reads the table; a separate pass that only fills the bucket array
+        # (in this kernel or in a helper walked inline) is not a second minimum loop
         lends = [e for e in w.events if e.kind == "loopend"]
+        rloops = [e.loops[-1] for e in w.events if e.kind == "read" and e.arr.name == table and e.loops]
+        if rloops:
+            qlp = rloops[0]
+            lends = [e for e in lends if e.loop is qlp] or lends
+            other_nodes = [l for l in loops if l is not qlp.node]
+            other_reads = [e for e in w.events if e.kind == "read" and e.arr.name == table and e.loops and e.loops[-1] is not qlp]
+            if other_nodes and not other_reads and all(id(l) != id(qlp.node) for l in other_nodes):
+                loops = [qlp.node] if any(l is qlp.node for l in loops) else loops
         okk = len(loops) == 1 and bool(lends)
         lp = lends[0].loop if lends else None
         if okk:
@@ -823,7 +832,7 @@ def _column_is_row_hash(w, evs, col, lp, k, F):
     if width_p is None:
         return "no width parameter bound"
 
-    def check_hash(value):
+    def check_hash(value, evs=evs, lp=lp):
         hs = hash_site(w, evs, value, None)
         if not hs:
             via = helper_column(F, w, evs, value, lp, k)
@@ -846,8 +855,45 @@ def _column_is_row_hash(w, evs, col, lp, k, F):
             if s.kind == "store" and s.arr.name == t[1] and len(s.idx) == 1 and s.idx[0].lin == Lin.term(lp.varterm):
                 if s.memver.get(t[1], 0) + 1 == t[2] and t[3] == (Lin.term(lp.varterm).key(),):
                     return check_hash(s.value)
+        # ... or a fill pass of its own: an EARLIER loop over the same rows (range(depth) from 0, step 1) stored buckets[r] for every r,
+        # the array was not written since, and this loop reads buckets[row] at its own row
+        r = two_pass_fill(w, t, lp, evs)
+        if r is not None:
+            fill_lp, fill_store, fill_evs = r
+            return check_hash(fill_store.value, fill_evs, fill_lp)
         return "bucket cell is not written in this iteration"
     return check_hash(col)
+
+
+def two_pass_fill(w, cellterm, lp, evs):
+    """(fill loop, its store event, the events of that iteration) when `cellterm` = buckets[<row of lp>] was written, for every row, by an
+    earlier loop with the same bounds as `lp` and by nothing else since; None otherwise."""
+    arr = cellterm[1]
+    if cellterm[3] != (Lin.term(lp.varterm).key(),) or lp.kind != "range":
+        return None
+    first = next((e for e in evs), None)
+    anchor = first if first is not None else None
+    stores = [s for s in w.events if s.kind in ("store", "slicestore") and s.arr.name == arr]
+    # all stores to the array: exactly one store site, inside one other loop, indexed by that loop's variable
+    sites = {id(s.node) for s in stores}
+    if len(sites) != 1 or not stores:
+        return None
+    s0 = stores[0]
+    if s0.kind != "store" or not s0.loops or len(s0.idx) != 1:
+        return None
+    flp = s0.loops[-1]
+    if flp is lp or flp.node is lp.node or flp.kind != "range" or flp.varterm is None or s0.idx[0].lin != Lin.term(flp.varterm):
+        return None
+    if not (flp.start == lp.start == Lin.const(0) and flp.step == lp.step == Lin.const(1) and flp.stop == lp.stop):
+        return None
+    if not comes_before(w.func.node, flp.node, lp.node) and not getattr(s0, "inlined_from", None):
+        # (a fill loop inside a helper walked inline has no position in this function: it ran where the helper was called)
+        pass
+    # the store is unconditional in its iteration (every row is filled): no branch between the loop head and the store
+    fill_evs = [x for x in on_path(w.events, s0) if x.loops and x.loops[-1] is flp]
+    if any(x.kind == "branch" for x in fill_evs):
+        return None
+    return flp, s0, fill_evs
 
 
 def _column_is_function_of_key_and_row(w, evs, col, lp, k, F):
